@@ -50,7 +50,7 @@ Qed.
 
 (* ---------- tags ---------- *)
 (* KTmp: scratch arrays an operation allocates and drops (WrapRoundTripFunc's local slice) *)
-Inductive akind := KSl (i : nat) | KConds | KHooks | KTmp.
+Inductive akind := KSl (i : nat) | KConds | KHooks | KTmp | KMap (f k : nat).
 Definition atag := (oid * akind)%type.
 Definition mtag := (oid * nat)%type.
 
@@ -190,45 +190,189 @@ Qed.
 Definition mp_ok (oM : list mtag) (t : mtag) (m : option nat) : Prop :=
   match m with None => True | Some a => nth_error oM a = Some t end.
 
-Lemma mp_ok_frame M oM M' e W t m :
-  mp_ok oM t m -> ~ W t -> frame [] W M oM M' ->
-  mp_ok (oM ++ e) t m /\ mp_read M' m = mp_read M m.
+Lemma mp_ok_frame {X} (M : list X) (d : X) oM (M' : list X) e W t m :
+  mp_ok oM t m -> ~ W t -> frame d W M oM M' ->
+  mp_ok (oM ++ e) t m /\ match m with None => d | Some a => nth a M' d end = match m with None => d | Some a => nth a M d end.
 Proof.
   destruct m as [a|]; simpl; auto.
   intros Ht Hw [_ F]. split; [auto using nth_error_app_old | apply (F a t Ht Hw)].
 Qed.
 
-Lemma mp_update_spec M oM t m k f M' m' :
-  length oM = length M -> mp_ok oM t m -> mp_update M m k f = (M', m') ->
-  exists e, length (oM ++ e) = length M' /\ mp_ok (oM ++ e) t m' /\
-    mp_read M' m' = nset k (f (nget_list k (mp_read M m))) (mp_read M m) /\
-    frame [] (eq t) M oM M'.
+(* a map pointer of object/field t: the cell is tagged t, its keys are distinct, every entry's slice lives
+   in arrays tagged (owner, KMap field key) *)
+Definition ent_ok (A : list (list val)) (oA : list atag) (t : mtag) (c : hmapcell) : Prop :=
+  NoDup (map fst c) /\ forall k s, In (k, s) c -> sl_ok A oA (fst t, KMap (snd t) k) s.
+Definition hm_ok (A : list (list val)) (M : list hmapcell) (oA : list atag) (oM : list mtag) (t : mtag) (m : option nat) : Prop :=
+  match m with None => True | Some a => nth_error oM a = Some t /\ ent_ok A oA t (nth a M []) end.
+
+Lemma ent_ok_frame A oA A' e W t c :
+  ent_ok A oA t c -> (forall k, ~ W (fst t, KMap (snd t) k)) -> frame [] W A oA A' ->
+  ent_ok A' (oA ++ e) t c /\ mp_view A' c = mp_view A c.
 Proof.
-  intros HL Hok Hu. unfold mp_update in Hu. destruct m as [a|]; inversion Hu; subst M' m'; clear Hu.
-  - simpl in Hok. pose proof (nth_error_lt _ _ _ Hok) as Ha. rewrite HL in Ha.
-    exists []. rewrite app_nil_r, upd_nth_length. repeat split; auto.
-    + simpl. now rewrite nth_upd_nth_eq.
-    + rewrite upd_nth_length; auto.
-    + intros a0 t0 Ha0 Hne. apply nth_upd_nth_neq. intros ->. rewrite Hok in Ha0. inversion Ha0; auto.
+  intros [Hn Hc] Hw F. split; [split; auto|].
+  - intros k s HI. apply (sl_ok_frame A oA A' e W _ s (Hc k s HI) (Hw k) F).
+  - unfold mp_view. apply map_ext_in. intros [k s] HI. simpl. f_equal.
+    apply (sl_ok_frame A oA A' e W _ s (Hc k s HI) (Hw k) F).
+Qed.
+
+Lemma hm_ok_frame A M oA oM A' M' eA eM WA WM t m :
+  hm_ok A M oA oM t m -> ~ WM t -> (forall k, ~ WA (fst t, KMap (snd t) k)) ->
+  frame [] WA A oA A' -> frame [] WM M oM M' ->
+  hm_ok A' M' (oA ++ eA) (oM ++ eM) t m /\ mp_read A' M' m = mp_read A M m.
+Proof.
+  destruct m as [a|]; [|simpl; auto].
+  intros [Ht Hc] Hw Hwa FA [_ FM]. pose proof (FM a t Ht Hw) as E0.
+  destruct (ent_ok_frame _ _ _ eA _ _ _ Hc Hwa FA) as [C E]. split.
+  - change (nth_error (oM ++ eM) a = Some t /\ ent_ok A' (oA ++ eA) t (nth a M' [])). rewrite E0. auto using nth_error_app_old.
+  - change (mp_view A' (nth a M' []) = mp_view A (nth a M [])). rewrite E0. exact E.
+Qed.
+
+Lemma mp_view_nset A k s c : mp_view A (nset k s c) = nset k (sl_read A s) (mp_view A c).
+Proof.
+  unfold mp_view, nset. induction c as [|[j y] t IH]; simpl; auto.
+  destruct (j =? k); simpl; auto. now rewrite IH.
+Qed.
+
+Lemma nset_keys {B} k (x : B) c :
+  map fst (nset k x c) = if existsb (fun j => j =? k) (map fst c) then map fst c else map fst c ++ [k].
+Proof.
+  unfold nset. induction c as [|[j y] t IH]; simpl; auto. destruct (j =? k) eqn:E; simpl; auto.
+  rewrite IH. destruct (existsb _ _); reflexivity.
+Qed.
+
+Lemma NoDup_snoc' {X} (l : list X) k : NoDup l -> ~ In k l -> NoDup (l ++ [k]).
+Proof.
+  induction 1 as [|x l Hx Hl IH]; simpl; intros Hn.
+  - constructor; [intros []|constructor].
+  - constructor.
+    + rewrite in_app_iff. intros [Hi|[Hi|[]]]; [auto|]. subst. apply Hn. auto.
+    + apply IH. auto.
+Qed.
+
+Lemma nset_NoDup {B} k (x : B) c : NoDup (map fst c) -> NoDup (map fst (nset k x c)).
+Proof.
+  intros N. rewrite nset_keys. destruct (existsb _ _) eqn:E; auto.
+  apply NoDup_snoc'; auto. intros Hk.
+  assert (existsb (fun j => j =? k) (map fst c) = true); [|congruence].
+  apply existsb_exists. exists k. split; auto. apply Nat.eqb_refl.
+Qed.
+
+Lemma In_nset {B} k (x : B) c j y : NoDup (map fst c) ->
+  In (j, y) (nset k x c) -> (j, y) = (k, x) \/ (In (j, y) c /\ j <> k).
+Proof.
+  unfold nset. induction c as [|[i z] t IH]; simpl; intros N HI.
+  - destruct HI as [E|[]]; auto.
+  - inversion N; subst. destruct (Nat.eqb_spec i k).
+    + subst. destruct HI as [E|HI]; [auto|]. right. split; auto.
+      intros ->. apply H1. change k with (fst (k, y)). now apply in_map.
+    + destruct HI as [E|HI]; [inversion E; subst; auto|].
+      destruct (IH H2 HI) as [E|[HI' Nk]]; auto.
+Qed.
+
+Lemma nset_view_ext A A' k (x : list val) c : NoDup (map fst c) ->
+  (forall j y, In (j, y) c -> j <> k -> sl_read A' y = sl_read A y) ->
+  nset k x (mp_view A' c) = nset k x (mp_view A c).
+Proof.
+  unfold nset, mp_view. induction c as [|[i z] t IH]; simpl; intros N Hx; auto.
+  inversion N; subst. destruct (Nat.eqb_spec i k).
+  - subst i. f_equal. apply map_ext_in. intros [j y] HI. simpl. f_equal. apply (Hx j y); auto.
+    intros ->. apply H1. change k with (fst (k, y)). now apply in_map.
+  - rewrite (Hx i z); auto. f_equal. apply IH; auto. intros j y HI. apply Hx; auto.
+Qed.
+
+Lemma nget_In {B} k (c : list (nat * B)) s : nget k c = Some s -> In (k, s) c.
+Proof.
+  unfold nget. induction c as [|[j y] t IH]; simpl; [discriminate|].
+  destruct (Nat.eqb_spec j k); [intros E; inversion E; subst; auto|auto].
+Qed.
+
+Lemma nget_view A k c : nget k (mp_view A c) = option_map (sl_read A) (nget k c).
+Proof. unfold nget, mp_view. induction c as [|[j y] t IH]; simpl; auto. destruct (j =? k); auto. Qed.
+
+(* the slice under key k *)
+Lemma mp_slot_spec A M oA oM t m k :
+  hm_ok A M oA oM t m ->
+  sl_ok A oA (fst t, KMap (snd t) k) (mp_slot M m k) /\ sl_read A (mp_slot M m k) = nget_list k (mp_read A M m).
+Proof.
+  intros Hok. unfold mp_slot, nget_list, mp_read. rewrite nget_view.
+  destruct (nget k (mp_cell M m)) as [s|] eqn:E; simpl; auto.
+  split; auto. destruct m as [a|]; simpl in *; [|discriminate].
+  destruct Hok as [_ [_ Hc]]. apply Hc. now apply nget_In.
+Qed.
+
+(* m[k] = s where s was made over the arrays A' (only arrays of (owner, KMap field k) written) *)
+Lemma mp_put_spec A A' M oA eA oM t m k s M' m' :
+  length oM = length M -> hm_ok A M oA oM t m ->
+  frame [] (eq (fst t, KMap (snd t) k)) A oA A' -> sl_ok A' (oA ++ eA) (fst t, KMap (snd t) k) s ->
+  mp_put M m k s = (M', m') ->
+  exists e, length (oM ++ e) = length M' /\ hm_ok A' M' (oA ++ eA) (oM ++ e) t m' /\
+    mp_read A' M' m' = nset k (sl_read A' s) (mp_read A M m) /\ frame [] (eq t) M oM M'.
+Proof.
+  intros HL Hok FA Hs Hu. unfold mp_put in Hu. destruct m as [a|]; inversion Hu; subst M' m'; clear Hu.
+  - simpl in Hok. destruct Hok as [Ht [Hn Hc]]. pose proof (nth_error_lt _ _ _ Ht) as Ha. rewrite HL in Ha.
+    assert (Hold : forall j y, In (j, y) (nth a M []) -> j <> k ->
+              sl_ok A' (oA ++ eA) (fst t, KMap (snd t) j) y /\ sl_read A' y = sl_read A y).
+    { intros j y HI N. apply (sl_ok_frame A oA A' eA (eq (fst t, KMap (snd t) k)) _ y (Hc j y HI)); auto.
+      intros E; inversion E; congruence. }
+    exists []. rewrite app_nil_r, upd_nth_length. split; auto. split; [|split].
+    + simpl. rewrite nth_upd_nth_eq by auto. split; auto. split; [now apply nset_NoDup|].
+      intros j y HI. destruct (In_nset _ _ _ _ _ Hn HI) as [E|[HI' N]]; [inversion E; subst; exact Hs|].
+      now apply (Hold j y HI' N).
+    + unfold mp_read, mp_cell. rewrite nth_upd_nth_eq by auto. rewrite mp_view_nset.
+      apply nset_view_ext; auto. intros j y HI N. now apply (Hold j y HI N).
+    + split; [rewrite upd_nth_length; auto|].
+      intros a0 t0 Ha0 Hne. apply nth_upd_nth_neq. intros ->. rewrite Ht in Ha0. inversion Ha0; auto.
   - exists [t]. rewrite !app_length, HL; simpl. split; [auto|split; [|split; [|split]]].
-    + rewrite <- HL. apply nth_error_app_new.
-    + now rewrite nth_app_new.
+    + rewrite <- HL, nth_error_app_new, HL, nth_app_new. split; auto. split.
+      * simpl. constructor; [intros []|constructor].
+      * intros j y [E|[]]. inversion E; subst. exact Hs.
+    + unfold mp_read, mp_cell. now rewrite nth_app_new.
     + rewrite app_length. apply Nat.le_add_r.
     + intros a0 t0 Ha0 _. apply app_nth1. apply nth_error_lt in Ha0. rewrite HL in Ha0. exact Ha0.
 Qed.
 
-Lemma mp_clone_spec M oM t' m M' m' :
-  length oM = length M -> mp_clone M m = (M', m') ->
-  exists e, length (oM ++ e) = length M' /\ mp_ok (oM ++ e) t' m' /\
-    mp_read M' m' = mp_read M m /\ frame [] (fun _ : mtag => False) M oM M'.
+Lemma clone_entries_spec t' tsrc : forall c A oA A' c',
+  length oA = length A -> ent_ok A oA tsrc c -> clone_entries A c = (A', c') ->
+  exists e, length (oA ++ e) = length A' /\ ent_ok A' (oA ++ e) t' c' /\ map fst c' = map fst c /\
+    mp_view A' c' = mp_view A c /\ frame [] (fun _ : atag => False) A oA A'.
 Proof.
-  intros HL Hc. unfold mp_clone in Hc. destruct m as [a|]; inversion Hc; subst M' m'; clear Hc.
-  - exists [t']. rewrite !app_length, HL; simpl. split; [auto|split; [|split; [|split]]].
-    + rewrite <- HL. apply nth_error_app_new.
-    + now rewrite nth_app_new.
-    + rewrite app_length. apply Nat.le_add_r.
-    + intros a0 t0 Ha0 _. apply app_nth1. apply nth_error_lt in Ha0. rewrite HL in Ha0. exact Ha0.
-  - exists []. rewrite app_nil_r. simpl. repeat split; auto.
+  induction c as [|[k s] t IH]; intros A oA A' c' HL [Hn Hc] He; cbn [clone_entries] in He.
+  - inversion He; subst. exists []. rewrite app_nil_r.
+    split; [exact HL|]. split; [split; [constructor|intros k s []]|]. split; [reflexivity|]. split; [reflexivity|apply frame_refl].
+  - destruct (sl_clone A s) as [A1 s1] eqn:E1. destruct (clone_entries A1 t) as [A2 t2] eqn:E2.
+    inversion He; subst A' c'; clear He. inversion Hn; subst.
+    destruct (sl_clone_spec _ oA (fst t', KMap (snd t') k) _ _ _ HL E1) as (e1 & L1 & K1 & R1 & F1).
+    assert (Hsrc : ent_ok A1 (oA ++ e1) tsrc t /\ mp_view A1 t = mp_view A t).
+    { apply (ent_ok_frame A oA A1 e1 (fun _ => False) tsrc t); auto. split; auto. intros j y HI. apply Hc. simpl; auto. }
+    destruct Hsrc as [Hsrc Vsrc].
+    destruct (IH A1 (oA ++ e1) A2 t2 L1 Hsrc E2) as (e2 & L2 & [N2 K2] & KS & R2 & F2).
+    destruct (sl_ok_frame _ _ _ e2 _ _ _ K1 (fun x : False => x) F2) as [K1' R1'].
+    exists (e1 ++ e2). rewrite app_assoc. split; [exact L2|]. split; [|split; [|split]].
+    + split.
+      * simpl. rewrite KS. exact Hn.
+      * intros j y [E|HI]; [inversion E; subst; exact K1'|]. now apply K2.
+    + simpl. now rewrite KS.
+    + cbn [mp_view map fst snd]. fold (mp_view A2 t2). fold (mp_view A t). rewrite R2, Vsrc, R1', R1. reflexivity.
+    + eapply frame_trans; eauto.
+Qed.
+
+Lemma mp_clone_spec A M oA oM t' tsrc m A' M' m' :
+  length oA = length A -> length oM = length M -> hm_ok A M oA oM tsrc m -> mp_clone A M m = (A', M', m') ->
+  exists eA eM, length (oA ++ eA) = length A' /\ length (oM ++ eM) = length M' /\
+    hm_ok A' M' (oA ++ eA) (oM ++ eM) t' m' /\ mp_read A' M' m' = mp_read A M m /\
+    frame [] (fun _ : atag => False) A oA A' /\ frame [] (fun _ : mtag => False) M oM M'.
+Proof.
+  intros LA LM Hok Hc. unfold mp_clone in Hc. destruct m as [a|].
+  - destruct (clone_entries A (nth a M [])) as [A1 c1] eqn:E. inversion Hc; subst A' M' m'; clear Hc.
+    destruct Hok as [Ht Hc].
+    destruct (clone_entries_spec t' tsrc _ _ oA _ _ LA Hc E) as (eA & L1 & K1 & _ & R1 & F1).
+    exists eA, [t']. split; [exact L1|]. split; [rewrite !app_length, LM; reflexivity|]. split; [|split; [|split]].
+    + change (nth_error (oM ++ [t']) (length M) = Some t' /\ ent_ok A1 (oA ++ eA) t' (nth (length M) (M ++ [c1]) [])).
+      rewrite <- LM at 1. rewrite nth_error_app_new, nth_app_new. auto.
+    + change (mp_view A1 (nth (length M) (M ++ [c1]) []) = mp_view A (nth a M [])). now rewrite nth_app_new.
+    + exact F1.
+    + split; [rewrite app_length; apply Nat.le_add_r|]. intros a0 t0 Ha0 _. apply app_nth1. apply nth_error_lt in Ha0. rewrite LM in Ha0. exact Ha0.
+  - inversion Hc; subst. exists [], []. rewrite !app_nil_r. simpl. repeat split; auto.
 Qed.
 
 (* ---------- objects ---------- *)
@@ -238,8 +382,8 @@ Definition lens (H : heap) (ow : owners) : Prop :=
 
 Definition comp_sl (A : list (list val)) (oA : list atag) (id : oid) (l : list slice) : Prop :=
   forall i, sl_ok A oA (id, KSl i) (nth i l None).
-Definition comp_mp (oM : list mtag) (id : oid) (l : list (option nat)) : Prop :=
-  forall i, mp_ok oM (id, i) (nth i l None).
+Definition comp_mp (A : list (list val)) (M : list hmapcell) (oA : list atag) (oM : list mtag) (id : oid) (l : list (option nat)) : Prop :=
+  forall i, hm_ok A M oA oM (id, i) (nth i l None).
 Definition rt_ok (A : list (list val)) (R : list retry) (oA : list atag) (oR : list oid) (id : oid) (r : option nat) : Prop :=
   match r with
   | None => True
@@ -254,7 +398,7 @@ Definition ext_ok (oJ : list mtag) (id : oid) (e : oext) : Prop :=
 
 Record obj_ok (H : heap) (ow : owners) (id : oid) (o : obj) : Prop := {
   ok_sl : comp_sl (arrs H) (owA ow) id (o_sl o);
-  ok_mp : comp_mp (owM ow) id (o_mp o);
+  ok_mp : comp_mp (arrs H) (maps H) (owA ow) (owM ow) id (o_mp o);
   ok_rt : rt_ok (arrs H) (recs H) (owA ow) (owR ow) id (o_rt o);
   ok_jar : jar_ok (owJ ow) id (o_jar o) (o_fact o);
   ok_ext : ext_ok (owJ ow) id (o_ext o) }.
@@ -275,14 +419,15 @@ Proof.
     destruct (sl_ok_frame A oA A' e W (id, KSl i) (nth i l None)); auto.
 Qed.
 
-Lemma comp_mp_frame M oM M' e W id l :
-  comp_mp oM id l -> frame [] W M oM M' -> (forall i, ~ W (id, i)) ->
-  comp_mp (oM ++ e) id l /\ map (mp_read M') l = map (mp_read M) l.
+Lemma comp_mp_frame A M oA oM A' M' eA eM WA WM id l :
+  comp_mp A M oA oM id l -> frame [] WA A oA A' -> frame [] WM M oM M' ->
+  (forall i, ~ WM (id, i)) -> (forall f k, ~ WA (id, KMap f k)) ->
+  comp_mp A' M' (oA ++ eA) (oM ++ eM) id l /\ map (mp_read A' M') l = map (mp_read A M) l.
 Proof.
-  intros Hc F Hw. split.
-  - intros i. eapply mp_ok_frame; eauto.
+  intros Hc FA FM Hw Hwa. split.
+  - intros i. apply (hm_ok_frame A M oA oM A' M' eA eM WA WM (id, i) _ (Hc i)); auto.
   - apply map_nth_ext with (d := None). intros i.
-    destruct (mp_ok_frame M oM M' e W (id, i) (nth i l None)); auto.
+    apply (hm_ok_frame A M oA oM A' M' eA eM WA WM (id, i) _ (Hc i)); auto.
 Qed.
 
 Definition rt_view (A : list (list val)) (R : list retry) (r : option nat) : vretry :=
@@ -344,7 +489,7 @@ Definition ext (ow : owners) eA eM eR eJ : owners :=
 
 Lemma abs_obj_eq H o :
   abs_obj H o =
-  {| v_sl := map (sl_read (arrs H)) (o_sl o); v_mp := map (mp_read (maps H)) (o_mp o);
+  {| v_sl := map (sl_read (arrs H)) (o_sl o); v_mp := map (mp_read (arrs H) (maps H)) (o_mp o);
      v_rt := rt_view (arrs H) (recs H) (o_rt o);
      v_chain := o_chain o; v_tchain := o_tchain o; v_scal := o_scal o;
      v_jar := match o_jar o with None => None | Some a => Some (nth a (jars H) []) end;
@@ -358,7 +503,7 @@ Lemma obj_frame H ow H' eA eM eR eJ WA WM WR WJ id o :
 Proof.
   intros [O1 O2 O3 O4 O5] (FA & FM & FR & FJ) W1 W2 W3 W4.
   destruct (comp_sl_frame _ _ _ eA _ _ _ O1 FA (fun i => W1 (KSl i))) as [S1 E1].
-  destruct (comp_mp_frame _ _ _ eM _ _ _ O2 FM W2) as [S2 E2].
+  destruct (comp_mp_frame _ _ _ _ _ _ eA eM _ _ _ _ O2 FA FM W2 (fun f k => W1 (KMap f k))) as [S2 E2].
   destruct (rt_ok_frame _ _ _ _ _ _ eA eR _ _ _ _ O3 FA FR (W1 KConds) (W1 KHooks) W3) as [S3 E3].
   destruct (jar_ok_frame _ _ _ eJ _ _ _ _ O4 FJ (W4 0)) as [S4 E4].
   destruct (ext_ok_frame _ _ _ eJ _ _ _ O5 FJ (W4 1) (W4 2)) as [S5 E5].
